@@ -12,6 +12,7 @@ _MYPY = False
 if _MYPY:
     import typing  # noqa: F401 # pylint: disable=import-error,unused-import,useless-suppression
 
+import numbers
 import re
 
 from ..ir import (
@@ -901,7 +902,19 @@ class IRGenerator:
                     if not (field._ast_node.type_ref.nullable and default_value is None):
                         # Verify that the type of the default value is correct for this field
                         try:
-                            if field.data_type.name in ('Float32', 'Float64'):
+                            unwrapped_dt, _ = unwrap_aliases(field.data_type)
+                            if not (is_primitive_type(unwrapped_dt) or
+                                    is_union_type(unwrapped_dt)):
+                                raise ValueError(
+                                    'only fields with a primitive or union '
+                                    'type can have a default')
+                            if (is_union_type(unwrapped_dt) and
+                                    not isinstance(default_value, TagRef)):
+                                raise ValueError(
+                                    'the default of a union must be one of '
+                                    'its void tags')
+                            if (field.data_type.name in ('Float32', 'Float64') and
+                                    isinstance(default_value, numbers.Real)):
                                 # You can assign int to the default value of float type
                                 # However float type should always have default value in float
                                 default_value = float(default_value)
